@@ -337,7 +337,7 @@ type Summary struct {
 	Runs        int              `json:"runs"`
 	Evals       int              `json:"evals"`
 	Steps       int64            `json:"steps"`
-	SimNs       int64            `json:"sim_ns"`
+	SimNs       float64          `json:"sim_ns"` // a sum over runs that may each cover years (certificates): float, an int64 of nanoseconds overflows
 	WallS       float64          `json:"wall_s"`
 	Faults      map[string]int   `json:"faults"`
 	Probes      map[string]int   `json:"probes"`
@@ -470,7 +470,7 @@ func batch(t *testing.T) {
 		sum.Runs++
 		sum.Evals += res.Evals
 		sum.Steps += int64(res.Steps)
-		sum.SimNs += res.SimNs
+		sum.SimNs += float64(res.SimNs)
 		sum.Ends[res.End]++
 		for k, v := range res.Faults {
 			sum.Faults[k] += v
